@@ -1,6 +1,8 @@
 package props
 
 import (
+	"bytes"
+	"context"
 	stdjson "encoding/json"
 	"fmt"
 	"reflect"
@@ -38,6 +40,22 @@ func c08Interps() []c08Interp {
 		{"vm_color_indent", func(x any) ([]byte, error) {
 			return gojson.MarshalIndentWithOption(x, "", " ", gojson.Colorize(scheme))
 		}},
+		// the other entry points into the same interpreters, after the colour runs (they take their
+		// contexts from the same pool)
+		{"vm:Encoder.EncodeContext", func(x any) ([]byte, error) {
+			var buf bytes.Buffer
+			err := gojson.NewEncoder(&buf).EncodeContext(context.Background(), x)
+			return buf.Bytes(), err
+		}},
+		{"vm:MarshalContext", func(x any) ([]byte, error) { return gojson.MarshalContext(context.Background(), x) }},
+		{"vm_indent:Encoder.SetIndent", func(x any) ([]byte, error) {
+			var buf bytes.Buffer
+			e := gojson.NewEncoder(&buf)
+			e.SetIndent("", " ")
+			err := e.Encode(x)
+			return buf.Bytes(), err
+		}},
+		{"vm:MarshalNoEscape", func(x any) ([]byte, error) { return gojson.MarshalNoEscape(x) }},
 	}
 }
 
